@@ -39,7 +39,9 @@ def spell(sp, eletter="e-", sprefix="#"):
     x = sp.get("x", "")  # excited-state marker '*' (suffix) or cyclic / linear marker 'c-' / 'l-' (prefix)
     pre_x = x if x in ("c-", "l-") else ""
     suf_x = x if x == "*" else ""
-    return f"{sprefix if sp.get('s') else ''}{sp.get('l', '')}{pre_x}{body}{suf_x}{ch}"
+    # ice on a grain-size group other than 0 carries the group number after the surface prefix (#1CO)
+    pre = (sprefix + (str(sp["sg"]) if sp.get("sg") else "")) if sp.get("s") else ""
+    return f"{pre}{sp.get('l', '')}{pre_x}{body}{suf_x}{ch}"
 
 
 def composition(sp):
@@ -61,7 +63,9 @@ def identity(sp):
         return ("e",)
     if sp["k"] == "grain":
         return ("grain", sp.get("g", 0), sp.get("q", 0))
-    return ("mol", tuple(tuple(t) for t in sp["t"]), sp.get("q", 0), bool(sp.get("s")), sp.get("l", "") + sp.get("x", ""))
+    ident = ("mol", tuple(tuple(t) for t in sp["t"]), sp.get("q", 0), bool(sp.get("s")), sp.get("l", "") + sp.get("x", ""))
+    # the same molecule frozen on two grain-size groups is two species
+    return ident + (("sg", sp["sg"]),) if sp.get("s") and sp.get("sg") else ident
 
 
 # ------------------------------------------------------------------------------------ strategies
@@ -127,6 +131,10 @@ def species_pool(draw, min_size=2, max_size=10, elements=None, with_ice=True, wi
             add(sp)
             if draw(st.booleans()):
                 add(dict(sp, s=False))  # its gas counterpart
+            # the same ice on another grain-size group (not next to explicit grain species, which are all of group 0 here:
+            # naunet refuses ices on a group that has no grain species when grain species are tracked)
+            if draw(st.integers(0, 3)) == 0 and not any(x["k"] == "grain" for x in pool):
+                add(dict(sp, sg=draw(st.sampled_from([1, 2, 12]))))
         else:
             add(draw(gas_molecule(elements)))
     return pool
